@@ -35,7 +35,8 @@
 
 static volatile long heap_live;
 static void hook_malloc(const volatile void *p, size_t n) { (void) n; if (p) ++heap_live; }
-static void hook_free(const volatile void *p) { if (p) --heap_live; }
+static void real_gone(const volatile void *p);
+static void hook_free(const volatile void *p) { if (p) { --heap_live; real_gone(p); } }
 static long heap_base;
 
 enum { K_CFG, K_CMD, K_STAGE };
@@ -48,19 +49,43 @@ static const MPT_STRUCT(type_traits) *etraits;
 #define HARR(i) (kind == K_STAGE ? &st[i]._d : &arr[i])
 
 /* counted harness metatypes (cfg) */
-struct hmeta { MPT_INTERFACE(metatype) mt; long refs, under; };
+/* solo: addref refuses (answers 0); real: the value is a library text metatype made by mpt_meta_geninfo()
+ * (non-shareable as well, unref frees it): alive = the free hook has not seen its block go */
+struct hmeta { MPT_INTERFACE(metatype) mt; long refs, under; int solo; MPT_INTERFACE(metatype) *real; };
 static struct hmeta metas[MAXO + 1];
 static int hm_conv(MPT_INTERFACE(convertable) *c, MPT_TYPE(type) t, void *p) { (void) c; (void) t; (void) p; return MPT_ERROR(BadType); }
 static void hm_unref(MPT_INTERFACE(metatype) *m) { struct hmeta *h = (struct hmeta *) m; if (h->refs <= 0) ++h->under; else --h->refs; }
-static uintptr_t hm_addref(MPT_INTERFACE(metatype) *m) { return (uintptr_t) ++((struct hmeta *) m)->refs; }
+static uintptr_t hm_addref(MPT_INTERFACE(metatype) *m) { struct hmeta *h = (struct hmeta *) m; return h->solo ? 0 : (uintptr_t) ++h->refs; }
 static MPT_INTERFACE(metatype) *hm_clone(const MPT_INTERFACE(metatype) *m) { (void) m; return 0; }
 static const MPT_INTERFACE_VPTR(metatype) hm_vptr = { { hm_conv }, hm_unref, hm_addref, hm_clone };
 static long meta_index(const MPT_INTERFACE(metatype) *m)
 {
 	int k;
 	if (!m) return 0;
-	for (k = 1; k <= no; k++) if (&metas[k].mt == m) return k;
+	for (k = 1; k <= no; k++) if (&metas[k].mt == m || (metas[k].real && metas[k].real == m)) return k;
 	return -1;
+}
+static void real_gone(const volatile void *p)
+{
+	int k;
+	for (k = 1; k <= MAXO; k++) {
+		if (metas[k].real && (const volatile void *) metas[k].real == p) {
+			if (metas[k].refs <= 0) ++metas[k].under; else metas[k].refs = 0;
+		}
+	}
+}
+/* the value object handed to an element: a share of a counted one, the only reference of a non-shareable one */
+static MPT_INTERFACE(metatype) *meta_take(long o)
+{
+	MPT_INTERFACE(metatype) *m = &metas[o].mt;
+	if (!metas[o].solo) { m->_vptr->addref(m); return m; }
+	metas[o].refs = 1;
+	if (o == 4) return metas[o].real = mpt_meta_geninfo(8);
+	return m;
+}
+static int busy(long o)
+{
+	return o >= 1 && o <= no && metas[o].solo && metas[o].refs > 0;
 }
 
 /* command registrations (cmd): token = handler argument */
@@ -224,11 +249,12 @@ static void step_cfg(struct cmd *c, int h)
 	make_path(&p, store, sizeof(store), p1, p2);
 
 	if (!strcmp(a, "cfgset")) {
-		MPT_STRUCT(config_item) *it = mpt_config_item_reserve(&arr[h], &p);
+		MPT_STRUCT(config_item) *it;
+		if (busy(o)) { answer(c, "skipped", 0, 0, 0); return; }   /* the non-shareable value has its owner */
+		it = mpt_config_item_reserve(&arr[h], &p);
 		if (it && o >= 1 && o <= no) {
 			/* what config::root::assign does with the reserved element */
-			MPT_INTERFACE(metatype) *m = &metas[o].mt, *old = it->value;
-			m->_vptr->addref(m);
+			MPT_INTERFACE(metatype) *m = meta_take(o), *old = it->value;
 			it->value = m;
 			if (old) old->_vptr->unref(old);
 		}
@@ -313,11 +339,17 @@ static void drv_step(struct cmd *c)
 		else if (kind == K_CMD) { etraits = mpt_command_traits(); esize = sizeof(MPT_STRUCT(command)); }
 		else { etraits = mpt_value_store_traits(); esize = sizeof(MPT_STRUCT(value_store)); }
 		for (i = 0; i <= MAXO; i++) {
-			metas[i].mt._vptr = &hm_vptr; metas[i].refs = 1; metas[i].under = 0;
+			metas[i].mt._vptr = &hm_vptr; metas[i].refs = 1; metas[i].under = 0; metas[i].solo = 0; metas[i].real = 0;
 			tok_live[i] = 0;
 			inner[i]._buf = 0;
 		}
 		tok_under = 0;
+		if (kind == K_CFG) {
+			size_t nl = 0, j;
+			uint8_t *sl = drv_bytes(c, "solo", &nl);
+			for (j = 0; j < nl; j++) if (sl[j] >= 1 && sl[j] <= MAXO) { metas[sl[j]].solo = 1; metas[sl[j]].refs = 0; }
+			free(sl);
+		}
 		if (kind == K_STAGE) for (i = 1; i <= no; i++) inner[i]._buf = _mpt_buffer_alloc(8, 0);
 		heap_base = heap_live;
 		answer(c, "ok", 0, 0, 0);
